@@ -16,11 +16,17 @@ TRUSTED = ['rustc nightly front end: THIR/MIR are what gets compiled',
 def short_label(l):
     return l.split('(result')[0].split(' (cofactor')[0].strip()
 
-def run_S(report, E, fnames, prefix=spec_bdd.B):
-    """Explore every function, turn obligations into report entries.  Returns {fname: exploration}."""
+def run_S(report, E, fnames, prefix=spec_bdd.B, closure=True):
+    """Explore every function, turn obligations into report entries.  Returns {fname: exploration}.
+    With closure=True the summaries the explored bodies rely on are themselves verified (transitively), so that no proof rests on an
+    unchecked summary: every specified function that is called and has a body and a post-condition is explored as well."""
     results = {}
-    for n in fnames:
-        full = prefix + n if not n.startswith('rsbdd') else n
+    work = [prefix + n if not n.startswith('rsbdd') else n for n in fnames]
+    requested = set(work)
+    while work:
+        full = work.pop(0)
+        if full in results or full in report.s_done: continue
+        report.s_done.add(full)
         try:
             res = E.explore(full)
         except Undecidable as u:
@@ -28,7 +34,12 @@ def run_S(report, E, fnames, prefix=spec_bdd.B):
                              'cannot analyse %s: %s (fail closed)' % (full, u.construct), u.loc)
             continue
         results[full] = res
-        report.functions.append({'fn': full, 'worlds': len(res), 'obligations': sum(len(o) for _, _, _, o in res)})
+        if closure:
+            for (I, params, r, obls) in res:
+                for ev in I.events:
+                    if ev[0] == 'call' and ev[1] not in results and ev[1] not in work and ev[1] in E.specs and E.specs[ev[1]].post is not None and E.thir(ev[1]) is not None:
+                        work.append(ev[1])
+        report.functions.append({'fn': full, 'worlds': len(res), 'obligations': sum(len(o) for _, _, _, o in res), 'requested': full in requested})
         report.count('functions')
         report.count('worlds', len(res))
         for (I, params, r, obls) in res:
@@ -276,14 +287,17 @@ def check_C09(F, tier, t0):
     R = Report('C09')
     E = make_engine(F)
     guarded(R, 'S var_is_free', run_S, R, E, [FRF])
+    # a fixed-point name never reaches the evaluator as a variable only if the substitution replaces every occurrence in scope
+    guarded(R, 'S replace_var', run_S, R, E, [RVF])
     guarded(R, 'S/O quantifier support', run_S, R, E, ['exists_impl', 'exists', 'all'])
     guarded(R, 'X4 vars', engine_x.rule_X4, F, R, ('vars',))
     guarded(R, 'X3 order', engine_x.rule_X3, F, R)
-    R.floor('functions', 4); R.floor('worlds', 20); R.floor('X4:extract_vars', 1); R.floor('X4:free_vars-fill', 1)
+    R.floor('functions', 5); R.floor('worlds', 34); R.floor('X4:extract_vars', 1); R.floor('X4:free_vars-fill', 1)
     return finish(R, 'other', tier, t0,
         'var_is_free is checked against the textbook definition for every in-scope constructor (binders of quantifiers and fixed points shadow; disjunction over children '
         'otherwise); vars = every Var token once, sorted by id; free_vars = exactly those v of vars with var_is_free(whole formula, v), in that order; the quantified symbol '
-        'never occurs in exists_impl\'s result and exists/all are its fold/dual, so bound names never leak into a result; table columns are positions in free_vars. '
+        'never occurs in exists_impl\'s result and exists/all are its fold/dual, and replace_var substitutes every in-scope occurrence of a fixed-point name (capture-free homomorphism), '
+        'so bound names never leak into a result; table columns are positions in free_vars. '
         'Not decided: formulas with {reference} nodes (excluded by the property).',
         TRUSTED, [], './check C09')
 
@@ -474,7 +488,7 @@ def check_C19(F, tier, t0):
         E.alias_params = (0, 1)
         try:
             sub = Report('alias')
-            run_S(sub, E, ['union', 'intersect', 'complement'], spec_set.S_)
+            run_S(sub, E, ['union', 'intersect', 'complement'], spec_set.S_, closure=False)
             for v in sub.violations: R.violation(v.key + ' [same set as both operands]', v.rule, v.msg + ' (run with the operand aliased to the receiver)', v.loc, v.detail)
             R.obligations += sub.obligations; R.discharged += sub.discharged; R.idents |= set('alias ' + str(i) for i in sub.idents)
             R.count('aliased-runs', 3)
